@@ -283,7 +283,32 @@ S3 == WithIntro(
                      grid |-> Fld(Ls(Ls(Ty("Img"))), NoArgs)], {})],
    directives |-> <<>>])
 
-Catalog == <<S1, S2, S3>>
+\* ---- S4 "deep": interface-implements-interface chains (C : B : A), an unrelated interface X, unions whose members implement
+\*                 different interfaces (fragment rules 5.5.2.3 across interface / union / object), list-of-list inputs
+S4 == WithIntro(
+  [id |-> "deep", query |-> "Query", mutation |-> "", subscription |-> "",
+   order |-> <<"T1", "T2", "T3", "T4", "Lone", "Query">>,
+   types |-> [
+     A |-> IfaceT([a |-> Fld(Ty("Int"), NoArgs)], {}),
+     B |-> IfaceT([a |-> Fld(Ty("Int"), NoArgs), b |-> Fld(Ty("Int"), NoArgs)], {"A"}),
+     C |-> IfaceT([a |-> Fld(Ty("Int"), NoArgs), b |-> Fld(Ty("Int"), NoArgs), c |-> Fld(NN(Ty("Int")), NoArgs)], {"B", "A"}),
+     X |-> IfaceT([x |-> Fld(Ty("String"), NoArgs)], {}),
+     T1 |-> ObjT([a |-> Fld(Ty("Int"), NoArgs), b |-> Fld(Ty("Int"), NoArgs), c |-> Fld(NN(Ty("Int")), NoArgs), t1 |-> Fld(Ty("Int"), NoArgs),
+                  next |-> Fld(Ty("B"), NoArgs)], {"C", "B", "A"}),
+     T2 |-> ObjT([a |-> Fld(Ty("Int"), NoArgs), b |-> Fld(Ty("Int"), NoArgs), x |-> Fld(Ty("String"), NoArgs), t2 |-> Fld(Ty("Int"), NoArgs)], {"B", "A", "X"}),
+     T3 |-> ObjT([a |-> Fld(Ty("Int"), NoArgs), t3 |-> Fld(Ty("Int"), NoArgs)], {"A"}),
+     T4 |-> ObjT([x |-> Fld(Ty("String"), NoArgs), t4 |-> Fld(Ty("Int"), NoArgs)], {"X"}),
+     Lone |-> ObjT([l |-> Fld(Ty("Int"), NoArgs)], {}),
+     U |-> UnionT({"T1", "T4"}),
+     V |-> UnionT({"T2", "T3"}),
+     In4 |-> InputT([r |-> InF(Ls(Ls(Ty("Int"))), VL(<<VL(<<VI(1)>>)>>)), q |-> InF(NN(Ls(NN(Ty("Int")))), Absent)]),
+     Query |-> ObjT([a |-> Fld(Ty("A"), NoArgs), bs |-> Fld(Ls(NN(Ty("B"))), NoArgs), c |-> Fld(Ty("C"), NoArgs), u |-> Fld(Ty("U"), NoArgs),
+                     v |-> Fld(Ls(Ty("V")), NoArgs), x |-> Fld(Ty("X"), NoArgs), lone |-> Fld(Ty("Lone"), NoArgs),
+                     mat |-> Fld(Ty("String"), [m |-> Arg(Ls(Ls(NN(Ty("Int")))), Absent)]),
+                     mat2 |-> Fld(Ty("String"), [m |-> Arg(NN(Ls(Ls(Ty("In4")))), Absent)])], {})],
+   directives |-> <<>>])
+
+Catalog == <<S1, S2, S3, S4>>
 CatalogIds == {Catalog[i].id : i \in 1..Len(Catalog)}
 SchemaById(id) == CHOOSE s \in {Catalog[i] : i \in 1..Len(Catalog)} : s.id = id
 
